@@ -3,7 +3,8 @@
    semantics: secure messaging values (sm/BtokSM.tla part 1 over ref/BeltModes + ref/Codecs).
    Lines: e = "Reset" | "Op" | "Res"; Op lines carry op, key, ctr (counter before the call), inputs,
    outputs, rc (name of the err_t), ctr2 (counter after the call).                              *)
-EXTENDS BtokSM, Json, IOUtils
+EXTENDS BtokSM, CvcChain, Json, IOUtils
+BC == INSTANCE BtokCurves
 
 Tr == ndJsonDeserialize(IOEnv.TRACE)
 
@@ -34,8 +35,70 @@ SmLineOk(r) ==
     [] r.op = "alter" -> TRUE                                           \* the attacker's move: no claim
     [] OTHER -> FALSE
 
+\* a certificate issued by a root, with one octet altered (mask # 0) or not (mask = 0):
+\*   with the issuer's key (Unwrap, Val, Val2) an altered certificate is never accepted: the signature
+\*   is sig(key, body), and every octet is in the body, in the signature, or in the frame around them;
+\*   without a key (Unwrap(cert, 0, 0)) the signature is not looked at: accepted iff the octets still
+\*   parse as a certificate (ref/Codecs CvcDec) whose content passes btokCVCCheck (names, dates,
+\*   from <= until, public key on its standard curve), and then the decoded content is returned.
+CvcAltOk(r) ==
+  LET d == CvcDec(r.cert)
+      contentOk == d.ok /\ PeriodOk(d.cvc.from, d.cvc.until) /\ BC!IsStdPoint(d.cvc.pubkey)
+  IN /\ Len(r.cert) = Len(r.orig)
+     /\ \A i \in 1..Len(r.cert) : r.cert[i] = (IF i = r.pos /\ r.mask # 0 THEN r.orig[i] ^^ r.mask ELSE r.orig[i])
+     /\ (r.rc0 = "OK") = contentOk
+     /\ (r.rc0 = "OK" => (r.got = d.cvc /\ r.sig = d.sig))
+     /\ IF r.mask = 0 THEN r.rc0 = "OK" /\ r.rck = "OK" /\ r.rcv = "OK" /\ r.rcv2 = "OK"
+        ELSE r.rck # "OK" /\ r.rcv # "OK" /\ r.rcv2 # "OK"
+
+\* ---------------------------------------------------------------- bpki containers (bpki.h, PKCS#8 / PKCS#5)
+\* dotted decimal string (character codes) of a sequence of arcs
+DecCodes(v) == IF v = 0 THEN <<48>> ELSE
+  FoldLeft(LAMBDA acc, i : IF v \div (10 ^ (i - 1)) = 0 THEN acc ELSE <<48 + ((v \div (10 ^ (i - 1))) % 10)>> \o acc, <<>>, Upto(9))
+Dotted(arcs) == FoldLeft(LAMBDA acc, i : IF i = 1 THEN DecCodes(arcs[1]) ELSE acc \o <<46>> \o DecCodes(arcs[i]), <<>>, Upto(Len(arcs)))
+Oid(arcs) == OidEnc(Dotted(arcs))
+Stb == <<1, 2, 112, 0, 2, 0, 34, 101>>
+OidCurve(len) == Oid(Stb \o <<45, 3, CASE len = 24 -> 0 [] len = 32 -> 1 [] len = 48 -> 2 [] len = 64 -> 3>>)
+OidBelsM(len) == Oid(Stb \o <<60, 2, CASE len = 17 -> 1 [] len = 25 -> 2 [] len = 33 -> 3>>)
+SEQ == <<48>>
+\* PrivateKeyInfo: SEQ { SIZE(0), SEQ { OID(bign-pubkey | bels-share), OID(curve | bels-m0XXX) }, OCT key }
+PkiEnc(kind, key) ==
+  SeqEnc(SEQ, SizeEnc(<<2>>, <<>>)
+              \o SeqEnc(SEQ, IF kind = "priv" THEN Oid(Stb \o <<45, 2, 1>>) \o OidCurve(Len(key))
+                                                ELSE Oid(Stb \o <<60, 11>>) \o OidBelsM(Len(key)))
+              \o OctEnc(<<4>>, key))
+\* EncryptedPrivateKeyInfo with PBES2 { PBKDF2 { salt, iter, hmac-hbelt }, belt-kwp256 }
+EpkiEnc(edata, salt, iter) ==
+  SeqEnc(SEQ,
+    SeqEnc(SEQ, Oid(<<1, 2, 840, 113549, 1, 5, 13>>)
+                \o SeqEnc(SEQ, SeqEnc(SEQ, Oid(<<1, 2, 840, 113549, 1, 5, 12>>)
+                                            \o SeqEnc(SEQ, OctEnc(<<4>>, salt) \o SizeEnc(<<2>>, BNFromInt(iter))
+                                                            \o SeqEnc(SEQ, Oid(Stb \o <<47, 12>>) \o NullEnc)))
+                                \o SeqEnc(SEQ, Oid(Stb \o <<31, 73>>) \o NullEnc)))
+    \o OctEnc(<<4>>, edata))
+\* the encrypted data of a well-formed container: the OCTET STRING after the algorithm identifier
+EpkiEdata(epki) == LET o == SeqDec(epki, SEQ)
+                       a == SeqDec(o.body, SEQ)
+                   IN OctDec(DropN(o.body, a.n), <<4>>).val
+KeyLensOk(kind, n) == IF kind = "priv" THEN n \in {24, 32, 48, 64} ELSE n \in {17, 25, 33}
+\* the protection key: PBKDF2 (HMAC[belt-hash], one block) of the presented password
+ProtKey(r) == IF r.full THEN PBKDF2(r.pwd, r.iter, r.salt) ELSE r.dk
+BpkiOk(r) ==
+  CASE r.op = "bpkiW" ->
+         IF r.iter < 10000 \/ ~KeyLensOk(r.kind, Len(r.key)) \/ (r.kind = "share" /\ ~(r.key[1] \in 1..16)) THEN r.rc # "OK"
+         ELSE r.rc = "OK" /\ r.epki = EpkiEnc(KWPWrap(PkiEnc(r.kind, r.key), Zeros(16), ProtKey(r)), r.salt, r.iter)
+    [] r.op = "bpkiU" ->
+         IF r.cls = "altered" THEN r.rc # "OK" /\ r.out = <<>>                  \* an altered container never opens
+         ELSE LET u == KWPUnwrap(EpkiEdata(r.epki), Zeros(16), r.dk) IN       \* the right key iff the right password
+              /\ (r.rc = "OK") = u[1]
+              /\ (r.rc = "OK" => (r.out = r.key /\ u[2] = PkiEnc(r.kind, r.key)))
+              /\ (r.cls = "right" => r.rc = "OK")
+    [] OTHER -> FALSE
+
 LineOk(r) ==
   IF r.e = "Reset" THEN TRUE
+  ELSE IF r.op \in {"bpkiW", "bpkiU"} THEN BpkiOk(r)
+  ELSE IF r.op = "cvcAlt" THEN CvcAltOk(r)
   ELSE IF r.op \in {"inc", "cmdW", "cmdU", "respW", "respU", "alter"} THEN SmLineOk(r)
   ELSE FALSE
 
